@@ -1,9 +1,177 @@
-(* Sem/CallsProofs.v — proofs about the call-recording model (property C08) *)
+(* Sem/CallsProofs.v — the theorems of property C08 about single statements: strip levels of rendered
+   statements, the keyword table, raw calls of every statement form, format/goto, once-only. *)
 From Coq Require Import ZArith Lia.
-From Ford Require Import Base.Str Base.StrFacts Gen.Intrinsics Sem.Calls Sem.CallsSpec.
+From Ford Require Import Base.Str Base.StrFacts Gen.Intrinsics Sem.Calls Sem.CallsSpec Sem.CallsStrip Sem.CallsScan Sem.CallsStmt.
 
-Lemma keywords_filtered : forall k, In k grammar_keywords -> str_in k INTRINSICS = true.
+(* ------------------------------------------------------------------ keywords *)
+Lemma keywords_in_intrinsics : forall k, In k grammar_keywords -> str_in k INTRINSICS = true.
 Proof.
   assert (H : forallb (fun k => str_in k INTRINSICS) grammar_keywords = true) by (vm_compute; reflexivity).
   intros k Hk. rewrite forallb_forall in H. exact (H k Hk).
+Qed.
+
+Definition seg_kw (g : seg) : list str := match g with GKw kw _ _ => [kw] | _ => [] end.
+
+Lemma iokw_in k : In (iokw_text k) grammar_keywords.
+Proof. destruct k; cbn; tauto. Qed.
+Lemma allockw_in k : In (allockw_text k) grammar_keywords.
+Proof. destruct k; cbn; tauto. Qed.
+
+(* completeness: every keyword a form, an IF...CALL or an ASSOCIATE writes in front of "(" is in the table *)
+Lemma form_keywords sp f kw : In kw (flat_map seg_kw (segs_of sp f)) -> In kw grammar_keywords.
+Proof.
+  destruct f; cbn [segs_of flat_map seg_kw app In]; intros H;
+    repeat match goal with H : _ \/ _ |- _ => destruct H as [H|H] end; try contradiction; subst;
+    try apply iokw_in; try apply allockw_in; try (cbn; tauto).
+  destruct w2; cbn in H; contradiction.
+Qed.
+
+Theorem keywords_filtered :
+  (forall k, In k grammar_keywords -> str_in k INTRINSICS = true) /\
+  (forall sp f kw, In kw (flat_map seg_kw (segs_of sp f)) -> str_in kw INTRINSICS = true) /\
+  str_in (s "if") INTRINSICS = true /\ str_in (s "associate") INTRINSICS = true.
+Proof.
+  split; [exact keywords_in_intrinsics|]. split.
+  - intros sp f kw H. apply keywords_in_intrinsics. exact (form_keywords sp f kw H).
+  - split; vm_compute; reflexivity.
+Qed.
+
+(* ------------------------------------------------------------------ strip levels of statements *)
+(* the parenthesised expressions d levels below those of es *)
+Fixpoint nth_level (d : nat) (es : list expr) : list expr :=
+  match d with 0 => es | S d' => nth_level d' (flat_map subs_e es) end.
+
+Lemma deepG_exprs d : forall es, deepG d (map tree_e es) = map (fun e => wrap (sh_e e)) (nth_level d es).
+Proof.
+  induction d as [|d IH]; intros es.
+  - cbn [deepG nth_level]. rewrite map_map. apply map_ext. intros e. now rewrite (proj1 tree_shallow).
+  - rewrite deepG_S, groups_exprs. cbn [nth_level]. apply IH.
+Qed.
+
+(* level 0 of a statement is its text with every argument list and parenthesised operand emptied;
+   level d+1 consists of exactly one slice "(...)" per parenthesised expression at that depth, each
+   reference in it reduced to  name()  *)
+Theorem strip_levels_segs gs : wf_segs gs = true -> gs <> [] ->
+  strip_paren (render_segs gs) 0 = [sh_segs gs] /\
+  forall d, strip_paren (render_segs gs) (S d) = map (fun e => wrap (sh_e e)) (nth_level d (flat_map subs_seg gs)).
+Proof.
+  intros Hwf Hne. pose proof (wf_segs_all gs Hwf) as Hall. pose proof (ok_tree_segs gs Hall) as Hok.
+  rewrite <- (tree_segs_flat gs). split.
+  - rewrite (strip_levels _ 0 Hok). cbn [level_slices]. rewrite tree_segs_shallow.
+    destruct gs as [|g gs]; [contradiction|].
+    assert (Hg : wf_seg g = true) by (cbn [forallb] in Hall; now apply andb_true_iff in Hall as [Hg _]).
+    destruct (sh_segs (g :: gs)) eqn:E; [exfalso; exact (sh_segs_nonempty g gs Hg E)|reflexivity].
+  - intros d. rewrite (strip_levels _ (S d) Hok). cbn [level_slices].
+    rewrite deep_deepG, tree_segs_groups. apply deepG_exprs.
+Qed.
+
+(* ------------------------------------------------------------------ raw calls of statements *)
+(* membership form of the level lists *)
+Lemma in_level_heads es n ch : In ch (level_heads es n) <-> exists d, d < n /\ In ch (deep_heads d es).
+Proof.
+  unfold level_heads. rewrite in_flat_map. split.
+  - intros (d & Hd & Hin). apply in_seq in Hd. exists d. split; [lia|exact Hin].
+  - intros (d & Hd & Hin). exists d. split; [apply in_seq; lia|exact Hin].
+Qed.
+
+Lemma labelled_not_plain l rest : label_ok l = true -> subcall_match (l ++ rest) = None.
+Proof.
+  unfold label_ok. intros H. apply andb_true_iff in H as [Hn Hd]. destruct l as [|c l]; [discriminate|].
+  cbn [forallb] in Hd. apply andb_true_iff in Hd as [Hc _].
+  assert (E1 : starts_ci (s "if") ((c :: l) ++ rest) = false).
+  { cbn. destruct c as [[|] [|] [|] [|] [|] [|] [|] [|]]; try discriminate Hc; reflexivity. }
+  assert (E2 : starts_ci (s "call") ((c :: l) ++ rest) = false).
+  { cbn. destruct c as [[|] [|] [|] [|] [|] [|] [|] [|]]; try discriminate Hc; reflexivity. }
+  unfold subcall_match. rewrite E1. unfold call_kw. now rewrite E2.
+Qed.
+
+Definition seg_stmt (st : stmt) : bool :=
+  match st with SForm _ _ _ | SCall _ _ | SIfCall _ _ _ _ | SAssoc _ _ => true | _ => false end.
+
+Definition stmt_lab (st : stmt) : option str :=
+  match st with SForm l _ _ | SCall l _ | SIfCall l _ _ _ => l | _ => None end.
+
+(* the chains the model collects from a statement, in its order: the CALL target first (when
+   SUBCALL_RE applies), then the heads of every nesting level *)
+Definition stmt_chains (st : stmt) : list chain :=
+  let n := length (render_stmt st) in
+  match st with
+  | SCall None d => names_d d :: level_heads (flat_map subs_seg (stmt_segs st)) (S n)
+  | SIfCall None _ _ d => names_d d :: level_heads (flat_map subs_seg (stmt_segs st)) (S n)
+  | SForm _ _ _ | SCall _ _ | SIfCall _ _ _ _ | SAssoc _ _ =>
+    flat_map seg_heads0 (stmt_segs st) ++ level_heads (flat_map subs_seg (stmt_segs st)) n
+  | _ => []
+  end.
+
+(* where SUBCALL_RE must not see a CALL: unlabelled forms and ASSOCIATE headers *)
+Definition plain_ok (st : stmt) : bool :=
+  match st with
+  | SForm None _ _ => plain_text (sh_segs (stmt_segs st))
+  | SAssoc _ _ => plain_text (sh_segs (stmt_segs st))
+  | _ => true
+  end.
+
+Lemma wf_stmt_segs st : seg_stmt st = true -> wf_stmt st = true -> wf_segs (stmt_segs st) = true /\ stmt_segs st <> [].
+Proof.
+  destruct st as [lab sp f|lab d|lab sp c d|sp pairs| | |]; try discriminate; intros _ H; cbn [wf_stmt] in H.
+  - apply andb_true_iff in H as [_ H]. split; [exact H|].
+    cbn [stmt_segs]. destruct lab; [discriminate|]. cbn [lab_segs app]. destruct f; cbn; try discriminate. destruct w2; discriminate.
+  - apply andb_true_iff in H as [_ H]. split; [exact H|]. cbn [stmt_segs]. destruct lab; discriminate.
+  - apply andb_true_iff in H as [_ H]. split; [exact H|]. cbn [stmt_segs]. destruct lab; discriminate.
+  - apply andb_true_iff in H as [H _]. apply andb_true_iff in H as [_ H]. split; [exact H|discriminate].
+Qed.
+
+Lemma sh_segs_label l gs : gs <> [] -> sh_segs (GWord l :: gs) = l ++ space :: sh_segs gs.
+Proof. destruct gs; [contradiction|]. intros _. reflexivity. Qed.
+
+Lemma wf_d_of_segs lab gs0 d : wf_segs (lab_segs lab ++ gs0 ++ [GExpr (EDes d)]) = true -> wf_d d = true.
+Proof.
+  intros H. apply wf_segs_all in H. rewrite !forallb_app in H. apply andb_true_iff in H as [_ H].
+  apply andb_true_iff in H as [_ H]. cbn [forallb wf_seg wf_e] in H. apply andb_true_iff in H as [H _].
+  now apply andb_true_iff in H as [H _].
+Qed.
+
+(* C08_raw: for every statement written as segments, the chains _add_procedure_calls collects are
+   exactly the identifiers in front of "(" at every nesting level — keywords included — and,
+   for CALL and IF ... CALL, the target of the CALL *)
+Theorem raw_stmt st : seg_stmt st = true -> wf_stmt st = true -> plain_ok st = true ->
+  map norm_chain (chain_texts (render_stmt st)) = stmt_chains st.
+Proof.
+  intros Hseg Hwf Hplain. destruct (wf_stmt_segs st Hseg Hwf) as [Hsegs Hne].
+  assert (Hlab : forall l gs, gs <> [] -> label_ok l = true -> subcall_match (sh_segs (GWord l :: gs)) = None).
+  { intros l gs Hg Hl. rewrite (sh_segs_label l gs Hg). now apply labelled_not_plain. }
+  destruct st as [lab sp f|lab d|lab sp c d|sp pairs| | |]; try discriminate.
+  - change (render_stmt (SForm lab sp f)) with (render_segs (stmt_segs (SForm lab sp f))).
+    unfold stmt_chains. apply raw_segs; [exact Hsegs|exact Hne|].
+    destruct lab as [l|].
+    + cbn [stmt_segs lab_segs app]. apply Hlab.
+      * destruct f; cbn; try discriminate. destruct w2; discriminate.
+      * cbn [wf_stmt wf_lab] in Hwf. now apply andb_true_iff in Hwf as [Hwf _].
+    + now apply subcall_plain.
+  - change (render_stmt (SCall lab d)) with (render_segs (stmt_segs (SCall lab d))).
+    destruct lab as [l|].
+    + unfold stmt_chains. apply raw_segs; [exact Hsegs|exact Hne|].
+      cbn [stmt_segs lab_segs app]. apply Hlab; [discriminate|].
+      cbn [wf_stmt wf_lab] in Hwf. now apply andb_true_iff in Hwf as [Hwf _].
+    + unfold stmt_chains.
+      assert (Hd : wf_d d = true) by (apply (wf_d_of_segs None [GWord (s "call")] d); exact Hsegs).
+      change (render_stmt (SCall None d)) with (render_segs (stmt_segs (SCall None d))).
+      apply raw_subcall; [now apply wf_segs_all|exact Hne|exact Hd|].
+      cbn [stmt_segs lab_segs app]. change (sh_segs [GWord (s "call"); GExpr (EDes d)]) with (s "call" ++ space :: sh_d d).
+      now apply subcall_call.
+  - change (render_stmt (SIfCall lab sp c d)) with (render_segs (stmt_segs (SIfCall lab sp c d))).
+    destruct lab as [l|].
+    + unfold stmt_chains. apply raw_segs; [exact Hsegs|exact Hne|].
+      cbn [stmt_segs lab_segs app]. apply Hlab; [discriminate|].
+      cbn [wf_stmt wf_lab] in Hwf. now apply andb_true_iff in Hwf as [Hwf _].
+    + unfold stmt_chains.
+      assert (Hd : wf_d d = true) by (apply (wf_d_of_segs None [GKw (s "if") sp c; GWord (s "call")] d); exact Hsegs).
+      change (render_stmt (SIfCall None sp c d)) with (render_segs (stmt_segs (SIfCall None sp c d))).
+      apply raw_subcall; [now apply wf_segs_all|exact Hne|exact Hd|].
+      cbn [stmt_segs lab_segs app].
+      change (sh_segs [GKw (s "if") sp c; GWord (s "call"); GExpr (EDes d)])
+        with ((s "if" ++ kw_sp sp ++ par2) ++ space :: s "call" ++ space :: sh_d d).
+      rewrite <- !app_assoc. now apply subcall_ifcall.
+  - change (render_stmt (SAssoc sp pairs)) with (render_segs (stmt_segs (SAssoc sp pairs))).
+    unfold stmt_chains. apply raw_segs; [exact Hsegs|exact Hne|]. now apply subcall_plain.
 Qed.
